@@ -11,6 +11,7 @@ import (
 	"sort"
 	"strconv"
 	"strings"
+	"time"
 
 	"github.com/jdillenkofer/pithos/internal/storage"
 	"github.com/jdillenkofer/pithos/internal/storage/database"
@@ -24,7 +25,13 @@ import (
 
 // C24 — bucket-routed storages are isolated. Case line: <cfg> <ops>   (see coq/Model/Router.v)
 //   cfg : bucket:storageId,...  (ids 1,2; everything else goes to the default storage 0), "-" = empty map
-//   ops : ';'-separated: cb,b | db,b | put,b,k,d,m | mput,b,k,d | del,b,k | cp,sb,sk,db,dk | head,b,k | lb
+//   ops : ';'-separated: cb,b | cbv,b (create + enable versioning) | db,b | put,b,k,d,m | mput,b,k,d | del,b,k | head,b,k[,vid] | lb
+//         cp,sb,sk,db,dk[,vid,range,cond] | upc,sb,sk,db,dk,vid,range,cond (multipart upload whose single part is an UploadPartCopy)
+//         vid   : - | n      (n-th version of the source key in creation order)
+//         range : - | s:e | s: | :n     (storage.ByteRange: start, exclusive end / suffix length)
+//         cond  : - | '+'-joined of imE imW imX nmE nmW nmX (If-Match / If-None-Match = source ETag, "*", another ETag)
+//                 us-1 us0 us1 ms-1 ms0 ms1 (If-Unmodified-Since / If-Modified-Since = source Last-Modified second + d seconds)
+//   data "E" is the empty content
 type c24 struct{}
 
 func init() { register("C24", c24{}) }
@@ -87,6 +94,20 @@ func (r *c24Rec) CompleteMultipartUpload(ctx context.Context, b storage.BucketNa
 	return r.Storage.CompleteMultipartUpload(ctx, b, k, u, ci, o)
 }
 
+func (r *c24Rec) PutBucketVersioningConfiguration(ctx context.Context, b storage.BucketName, c *storage.BucketVersioningConfiguration) error {
+	r.note("PutBucketVersioningConfiguration", b)
+	return r.Storage.PutBucketVersioningConfiguration(ctx, b, c)
+}
+func (r *c24Rec) UploadPartCopy(ctx context.Context, sb storage.BucketName, sk storage.ObjectKey, b storage.BucketName, k storage.ObjectKey, u storage.UploadId, pn int32, o *storage.UploadPartCopyOptions) (*storage.UploadPartCopyResult, error) {
+	r.note("UploadPartCopy.src", sb)
+	r.note("UploadPartCopy.dst", b)
+	return r.Storage.UploadPartCopy(ctx, sb, sk, b, k, u, pn, o)
+}
+func (r *c24Rec) AbortMultipartUpload(ctx context.Context, b storage.BucketName, k storage.ObjectKey, u storage.UploadId) error {
+	r.note("AbortMultipartUpload", b)
+	return r.Storage.AbortMultipartUpload(ctx, b, k, u)
+}
+
 func c24NewInstance(db database.Database) (storage.Storage, error) {
 	pc, err := repositoryFactory.NewPartContentRepository(db)
 	if err != nil {
@@ -123,14 +144,30 @@ func c24Err(err error) string {
 		return "BucketAlreadyExists"
 	case storage.ErrBucketNotEmpty:
 		return "BucketNotEmpty"
+	case storage.ErrPreconditionFailed:
+		return "PreconditionFailed"
+	case storage.ErrInvalidRange:
+		return "InvalidRange"
 	}
-	return "ERR(" + err.Error() + ")"
+	if _, ok := err.(*storage.CurrentDeleteMarkerError); ok {
+		return "DeleteMarker"
+	}
+	if _, ok := err.(*storage.VersionDeleteMarkerMethodNotAllowedError); ok {
+		return "MethodNotAllowed"
+	}
+	return "ERR(" + strings.ReplaceAll(err.Error(), " ", "_") + ")"
 }
 
-type c24ObjView struct{ data, flags string }
+type c24ObjView struct{ data, flags, etag string }
 
-func c24View(ctx context.Context, st storage.Storage, b storage.BucketName, k storage.ObjectKey) (c24ObjView, error) {
-	obj, rd, err := st.GetObject(ctx, b, k, nil, nil)
+func c24View(ctx context.Context, st storage.Storage, b storage.BucketName, k storage.ObjectKey, vid *string) (c24ObjView, error) {
+	var gopts *storage.GetObjectOptions
+	var topts *storage.ObjectTaggingOptions
+	if vid != nil {
+		gopts = &storage.GetObjectOptions{VersionID: vid}
+		topts = &storage.ObjectTaggingOptions{VersionID: vid}
+	}
+	obj, rd, err := st.GetObject(ctx, b, k, nil, gopts)
 	if err != nil {
 		return c24ObjView{}, err
 	}
@@ -145,29 +182,287 @@ func c24View(ctx context.Context, st storage.Storage, b storage.BucketName, k st
 		}
 		return "0"
 	}
-	tags, _ := st.GetObjectTagging(ctx, b, k, nil)
+	tags, _ := st.GetObjectTagging(ctx, b, k, topts)
 	c := obj.ContentType != nil && *obj.ContentType == "text/x"
 	u := obj.Metadata.UserMetadata["m"] == "1"
 	t := tags["t"] == "1"
 	m := strings.Contains(obj.ETag, "-")
-	return c24ObjView{data: buf.String(), flags: "c" + bit(c) + "u" + bit(u) + "t" + bit(t) + "m" + bit(m)}, nil
+	d := buf.String()
+	if d == "" {
+		d = "E"
+	}
+	return c24ObjView{data: d, flags: "c" + bit(c) + "u" + bit(u) + "t" + bit(t) + "m" + bit(m), etag: obj.ETag}, nil
 }
 
-func c24Dump(ctx context.Context, id int, st storage.Storage) string {
+// one world = something that executes the operations + a way to observe the backing state
+type c24World struct {
+	target storage.Storage                  // operations go here (router / single reference storage)
+	obs    func(bucket string) storage.Storage // observer of the backing storage holding that bucket
+	order  map[string][]string              // bucket/key -> version ids in creation order
+}
+
+// learn new version ids of a key (creation order = order of first sighting; one new version per op)
+func (w *c24World) learn(ctx context.Context, b, k string) {
+	res, err := w.obs(b).ListObjectVersions(ctx, storage.MustNewBucketName(b), storage.ListObjectVersionsOptions{Prefix: &k, MaxKeys: 1000})
+	if err != nil {
+		return
+	}
+	key := b + "/" + k
+	for i := len(res.Versions) - 1; i >= 0; i-- {
+		v := res.Versions[i]
+		if v.Key.String() != k || v.VersionID == "" || v.VersionID == "null" {
+			continue
+		}
+		seen := false
+		for _, id := range w.order[key] {
+			if id == v.VersionID {
+				seen = true
+			}
+		}
+		if !seen {
+			w.order[key] = append(w.order[key], v.VersionID)
+		}
+	}
+}
+func (w *c24World) vid(b, k, tok string) *string {
+	if tok == "-" || tok == "" {
+		return nil
+	}
+	n, _ := strconv.Atoi(tok)
+	ids := w.order[b+"/"+k]
+	id := "0000000000NOSUCHVERSION0000"
+	if n >= 1 && n <= len(ids) {
+		id = ids[n-1]
+	}
+	return &id
+}
+func (w *c24World) vidx(b, k string, id *string) string {
+	if id == nil {
+		return "-"
+	}
+	if *id == "null" {
+		return "null"
+	}
+	for i, x := range w.order[b+"/"+k] {
+		if x == *id {
+			return strconv.Itoa(i + 1)
+		}
+	}
+	return "?" + *id
+}
+
+func c24Range(tok string) *storage.ByteRange {
+	if tok == "-" || tok == "" {
+		return nil
+	}
+	p := strings.SplitN(tok, ":", 2)
+	var r storage.ByteRange
+	if p[0] != "" {
+		v, _ := strconv.ParseInt(p[0], 10, 64)
+		r.Start = &v
+	}
+	if p[1] != "" {
+		v, _ := strconv.ParseInt(p[1], 10, 64)
+		r.End = &v
+	}
+	return &r
+}
+
+func (w *c24World) conds(ctx context.Context, tok string, sb, sk string, vid *string) storage.CopySourceConditions {
+	var c storage.CopySourceConditions
+	if tok == "-" || tok == "" {
+		return c
+	}
+	etag := "\"0000\""
+	lm := time.Now()
+	if o, err := w.obs(sb).HeadObject(ctx, storage.MustNewBucketName(sb), storage.MustNewObjectKey(sk), &storage.HeadObjectOptions{VersionID: vid}); err == nil {
+		etag, lm = o.ETag, o.LastModified
+	}
+	pick := func(x byte) *string {
+		v := "\"ffffffffffffffffffffffffffffffff\""
+		switch x {
+		case 'E':
+			v = etag
+		case 'W':
+			v = "*"
+		}
+		return &v
+	}
+	for _, it := range strings.Split(tok, "+") {
+		switch it[:2] {
+		case "im":
+			c.IfMatch = pick(it[2])
+		case "nm":
+			c.IfNoneMatch = pick(it[2])
+		case "us", "ms":
+			d, _ := strconv.Atoi(it[2:])
+			t := lm.Truncate(time.Second).Add(time.Duration(d) * time.Second)
+			if it[:2] == "us" {
+				c.IfUnmodifiedSince = &t
+			} else {
+				c.IfModifiedSince = &t
+			}
+		}
+	}
+	return c
+}
+
+func c24PutOpts(meta bool) (*string, *storage.PutObjectOptions) {
+	if !meta {
+		return nil, nil
+	}
+	ct := "text/x"
+	return &ct, &storage.PutObjectOptions{Tags: map[string]string{"t": "1"}, Metadata: &storage.ObjectMetadata{UserMetadata: map[string]string{"m": "1"}}}
+}
+
+func c24Content(tok string) string {
+	if tok == "E" {
+		return ""
+	}
+	return tok
+}
+
+// exec runs one operation in a world and returns its canonical result token
+func (w *c24World) exec(ctx context.Context, a []string) string {
+	st := w.target
+	r := "ok"
+	switch a[0] {
+	case "cb":
+		r = c24Err(st.CreateBucket(ctx, storage.MustNewBucketName(a[1])))
+	case "cbv":
+		b := storage.MustNewBucketName(a[1])
+		err := st.CreateBucket(ctx, b)
+		if err == nil {
+			en := storage.BucketVersioningStatusEnabled
+			err = st.PutBucketVersioningConfiguration(ctx, b, &storage.BucketVersioningConfiguration{Status: &en})
+		}
+		r = c24Err(err)
+	case "db":
+		r = c24Err(st.DeleteBucket(ctx, storage.MustNewBucketName(a[1])))
+		if r == "ok" {
+			for k := range w.order {
+				if strings.HasPrefix(k, a[1]+"/") {
+					delete(w.order, k)
+				}
+			}
+		}
+	case "put":
+		ct, o := c24PutOpts(a[4] == "1")
+		_, err := st.PutObject(ctx, storage.MustNewBucketName(a[1]), storage.MustNewObjectKey(a[2]), ct, strings.NewReader(c24Content(a[3])), nil, o)
+		r = c24Err(err)
+		w.learn(ctx, a[1], a[2])
+	case "mput":
+		b, k := storage.MustNewBucketName(a[1]), storage.MustNewObjectKey(a[2])
+		up, err := st.CreateMultipartUpload(ctx, b, k, nil, nil, nil)
+		if err == nil {
+			_, err = st.UploadPart(ctx, b, k, up.UploadId, 1, strings.NewReader(c24Content(a[3])), nil)
+			if err == nil {
+				_, err = st.CompleteMultipartUpload(ctx, b, k, up.UploadId, nil, nil)
+			}
+		}
+		r = c24Err(err)
+		w.learn(ctx, a[1], a[2])
+	case "del":
+		_, err := st.DeleteObject(ctx, storage.MustNewBucketName(a[1]), storage.MustNewObjectKey(a[2]), nil)
+		r = c24Err(err)
+		w.learn(ctx, a[1], a[2])
+	case "head":
+		var vid *string
+		if len(a) > 3 {
+			vid = w.vid(a[1], a[2], a[3])
+		}
+		v, err := c24View(ctx, st, storage.MustNewBucketName(a[1]), storage.MustNewObjectKey(a[2]), vid)
+		r = c24Err(err)
+		if err == nil {
+			r = "H:" + v.data + ":" + v.flags
+		}
+	case "cp":
+		sb, sk, db, dk := storage.MustNewBucketName(a[1]), storage.MustNewObjectKey(a[2]), storage.MustNewBucketName(a[3]), storage.MustNewObjectKey(a[4])
+		var opts *storage.CopyObjectOptions
+		if len(a) > 5 && !(a[5] == "-" && a[6] == "-" && a[7] == "-") {
+			vid := w.vid(a[1], a[2], a[5])
+			opts = &storage.CopyObjectOptions{SourceVersionID: vid, Range: c24Range(a[6]), CopySourceConditions: w.conds(ctx, a[7], a[1], a[2], vid)}
+		}
+		res, err := st.CopyObject(ctx, sb, sk, db, dk, opts)
+		r = c24Err(err)
+		if err == nil {
+			r = "ok:" + w.vidx(a[1], a[2], res.SourceVersionID)
+		}
+		w.learn(ctx, a[3], a[4])
+	case "upc":
+		sb, sk, db, dk := storage.MustNewBucketName(a[1]), storage.MustNewObjectKey(a[2]), storage.MustNewBucketName(a[3]), storage.MustNewObjectKey(a[4])
+		vid := w.vid(a[1], a[2], a[5])
+		opts := &storage.UploadPartCopyOptions{SourceVersionID: vid, Range: c24Range(a[6]), CopySourceConditions: w.conds(ctx, a[7], a[1], a[2], vid)}
+		up, err := st.CreateMultipartUpload(ctx, db, dk, nil, nil, nil)
+		if err != nil {
+			r = "U:" + c24Err(err)
+			break
+		}
+		res, err := st.UploadPartCopy(ctx, sb, sk, db, dk, up.UploadId, 1, opts)
+		if err != nil {
+			st.AbortMultipartUpload(ctx, db, dk, up.UploadId)
+			r = c24Err(err)
+			break
+		}
+		_, err = st.CompleteMultipartUpload(ctx, db, dk, up.UploadId, nil, nil)
+		r = c24Err(err)
+		if err == nil {
+			r = "ok:" + w.vidx(a[1], a[2], res.SourceVersionID)
+		}
+		w.learn(ctx, a[3], a[4])
+	}
+	return r
+}
+
+// dump of one backing storage: buckets (versioned ones marked '!'), keys, versions newest first
+func (w *c24World) dump(ctx context.Context, id int, st storage.Storage) string {
 	bs, err := st.ListBuckets(ctx)
 	if err != nil {
 		return fmt.Sprintf("%d:ERR", id)
 	}
 	var parts []string
 	for _, b := range bs {
-		objs, _ := storage.ListAllObjectsOfBucket(ctx, st, b.Name)
-		var os []string
-		for _, o := range objs {
-			v, _ := c24View(ctx, st, b.Name, o.Key)
-			os = append(os, o.Key.String()+"="+v.data+":"+v.flags)
+		name := b.Name.String()
+		mark := ""
+		if vc, err := st.GetBucketVersioningConfiguration(ctx, b.Name); err == nil && vc.Status != nil && *vc.Status == storage.BucketVersioningStatusEnabled {
+			mark = "!"
 		}
-		sort.Strings(os)
-		parts = append(parts, b.Name.String()+"{"+strings.Join(os, ",")+"}")
+		res, _ := st.ListObjectVersions(ctx, b.Name, storage.ListObjectVersionsOptions{MaxKeys: 1000})
+		byKey := map[string]map[string]storage.ObjectVersion{}
+		var keys []string
+		if res != nil {
+			for _, v := range res.Versions {
+				k := v.Key.String()
+				if byKey[k] == nil {
+					byKey[k] = map[string]storage.ObjectVersion{}
+					keys = append(keys, k)
+				}
+				byKey[k][v.VersionID] = v
+			}
+		}
+		sort.Strings(keys)
+		var os []string
+		for _, k := range keys {
+			var vs []string
+			ids := w.order[name+"/"+k]
+			if mark == "" || len(ids) == 0 {
+				v, _ := c24View(ctx, st, b.Name, storage.MustNewObjectKey(k), nil)
+				vs = append(vs, v.data+":"+v.flags)
+			} else {
+				for i := len(ids) - 1; i >= 0; i-- {
+					ov := byKey[k][ids[i]]
+					if ov.IsDeleteMarker {
+						vs = append(vs, "DM")
+					} else {
+						id := ids[i]
+						v, _ := c24View(ctx, st, b.Name, storage.MustNewObjectKey(k), &id)
+						vs = append(vs, v.data+":"+v.flags)
+					}
+				}
+			}
+			os = append(os, k+"="+strings.Join(vs, "|"))
+		}
+		parts = append(parts, name+mark+"{"+strings.Join(os, ",")+"}")
 	}
 	sort.Strings(parts)
 	return strconv.Itoa(id) + ":" + strings.Join(parts, ",")
@@ -192,8 +487,8 @@ func (c24) Run(in string, scratch string) Result {
 	}
 	ctx := context.Background()
 	var log []string
-	var raw [3]storage.Storage
-	var dbs [3]database.Database
+	var raw [4]storage.Storage // 0..2 observers of the backings, 3 = the single reference storage
+	var dbs [4]database.Database
 	newInstance := func(id int) (*c24Rec, error) {
 		// every mapping entry (and the default) is its own storage instance, as the configuration
 		// layer builds them; entries with the same id share one database
@@ -203,7 +498,7 @@ func (c24) Run(in string, scratch string) Result {
 		}
 		return &c24Rec{Storage: ms, id: id, log: &log}, nil
 	}
-	for i := 0; i < 3; i++ {
+	for i := 0; i < 4; i++ {
 		db, err := sqlite.OpenDatabase(filepath.Join(scratch, "s"+strconv.Itoa(i)+".db"))
 		if err != nil {
 			return Result{Out: "SETUP-ERR " + err.Error(), Oracle: "-", Tags: []string{"setup-error"}}
@@ -236,6 +531,13 @@ func (c24) Run(in string, scratch string) Result {
 		return Result{Out: "START-ERR " + err.Error(), Oracle: "-", Tags: []string{"setup-error"}}
 	}
 	defer router.Stop(ctx)
+	if err := raw[3].Start(ctx); err != nil {
+		return Result{Out: "START-ERR " + err.Error(), Oracle: "-", Tags: []string{"setup-error"}}
+	}
+	defer raw[3].Stop(ctx)
+	world := &c24World{target: router, obs: func(b string) storage.Storage { return raw[routeOf(b)] }, order: map[string][]string{}}
+	// reference: the same history inside ONE storage — the specification of every copy's observable result
+	ref := &c24World{target: raw[3], obs: func(b string) storage.Storage { return raw[3] }, order: map[string][]string{}}
 
 	oracle := "OK"
 	fail := func(s string) {
@@ -245,13 +547,6 @@ func (c24) Run(in string, scratch string) Result {
 	}
 	tags := map[string]bool{}
 	var res []string
-	putOpts := func(meta bool) (*string, *storage.PutObjectOptions) {
-		if !meta {
-			return nil, nil
-		}
-		ct := "text/x"
-		return &ct, &storage.PutObjectOptions{Tags: map[string]string{"t": "1"}, Metadata: &storage.ObjectMetadata{UserMetadata: map[string]string{"m": "1"}}}
-	}
 	for _, opS := range strings.Split(f[1], ";") {
 		a := strings.Split(opS, ",")
 		log = log[:0]
@@ -263,64 +558,17 @@ func (c24) Run(in string, scratch string) Result {
 			}
 			allowed[id][b] = true
 		}
-		r := "ok"
 		switch a[0] {
-		case "cb":
-			allow(a[1])
-			r = c24Err(router.CreateBucket(ctx, storage.MustNewBucketName(a[1])))
-		case "db":
-			allow(a[1])
-			r = c24Err(router.DeleteBucket(ctx, storage.MustNewBucketName(a[1])))
-		case "put":
-			allow(a[1])
-			ct, o := putOpts(a[4] == "1")
-			_, err := router.PutObject(ctx, storage.MustNewBucketName(a[1]), storage.MustNewObjectKey(a[2]), ct, strings.NewReader(a[3]), nil, o)
-			r = c24Err(err)
-		case "mput":
-			allow(a[1])
-			b, k := storage.MustNewBucketName(a[1]), storage.MustNewObjectKey(a[2])
-			up, err := router.CreateMultipartUpload(ctx, b, k, nil, nil, nil)
-			if err == nil {
-				_, err = router.UploadPart(ctx, b, k, up.UploadId, 1, strings.NewReader(a[3]), nil)
-				if err == nil {
-					_, err = router.CompleteMultipartUpload(ctx, b, k, up.UploadId, nil, nil)
-				}
-			}
-			r = c24Err(err)
-		case "del":
-			allow(a[1])
-			_, err := router.DeleteObject(ctx, storage.MustNewBucketName(a[1]), storage.MustNewObjectKey(a[2]), nil)
-			r = c24Err(err)
-		case "head":
-			allow(a[1])
-			v, err := c24View(ctx, router, storage.MustNewBucketName(a[1]), storage.MustNewObjectKey(a[2]))
-			r = c24Err(err)
-			if err == nil {
-				r = "H:" + v.data + ":" + v.flags
-			}
-		case "cp":
+		case "lb":
+			allowed = nil
+		case "cp", "upc":
 			allow(a[1])
 			allow(a[3])
-			sb, sk, db, dk := storage.MustNewBucketName(a[1]), storage.MustNewObjectKey(a[2]), storage.MustNewBucketName(a[3]), storage.MustNewObjectKey(a[4])
-			var before c24ObjView
-			var beforeErr error
-			before, beforeErr = c24View(ctx, raw[routeOf(a[1])], sb, sk)
-			_, err := router.CopyObject(ctx, sb, sk, db, dk, nil)
-			r = c24Err(err)
-			cross := !sameInstance(a[1], a[3])
-			if cross {
-				tags["cross-copy"] = true
-			} else {
-				tags["same-copy"] = true
-			}
-			if err == nil && beforeErr == nil {
-				// direct oracle: the destination must be what a same-storage copy yields = the source as it was
-				after, aerr := c24View(ctx, raw[routeOf(a[3])], db, dk)
-				if aerr != nil || after != before {
-					fail(fmt.Sprintf("copy %s/%s -> %s/%s: destination %v differs from source %v", a[1], a[2], a[3], a[4], after, before))
-				}
-			}
-		case "lb":
+		default:
+			allow(a[1])
+		}
+		var r string
+		if a[0] == "lb" {
 			bs, err := router.ListBuckets(ctx)
 			r = c24Err(err)
 			if err == nil {
@@ -347,10 +595,43 @@ func (c24) Run(in string, scratch string) Result {
 				}
 			}
 			tags["list"] = true
-			for k := range allowed {
-				delete(allowed, k)
+		} else {
+			r = world.exec(ctx, a)
+			rr := ref.exec(ctx, a)
+			if a[0] == "cp" || a[0] == "upc" {
+				cross := !sameInstance(a[1], a[3])
+				kind := "same-"
+				if cross {
+					kind = "cross-"
+				}
+				tags[kind+a[0]] = true
+				if len(a) > 5 {
+					if a[5] != "-" {
+						tags[kind+"version"] = true
+					}
+					if a[6] != "-" {
+						tags[kind+"range"] = true
+					}
+					if a[7] != "-" {
+						tags[kind+"cond"] = true
+					}
+				}
+				if strings.HasPrefix(r, "ok") {
+					tags[kind+"copied"] = true
+				} else {
+					tags[kind+r] = true
+				}
+				// direct oracle: exactly the observable result of the same copy inside one storage
+				if r != rr {
+					fail(fmt.Sprintf("%s: result %s, the same copy inside one storage gives %s", opS, r, rr))
+				} else if strings.HasPrefix(r, "ok") {
+					got, e1 := c24View(ctx, raw[routeOf(a[3])], storage.MustNewBucketName(a[3]), storage.MustNewObjectKey(a[4]), nil)
+					want, e2 := c24View(ctx, raw[3], storage.MustNewBucketName(a[3]), storage.MustNewObjectKey(a[4]), nil)
+					if (e1 == nil) != (e2 == nil) || got != want {
+						fail(fmt.Sprintf("%s: destination %v, the same copy inside one storage gives %v", opS, got, want))
+					}
+				}
 			}
-			allowed = nil
 		}
 		// isolation oracle: during the op every backing storage was only asked about buckets routed to it
 		if allowed != nil {
@@ -364,7 +645,7 @@ func (c24) Run(in string, scratch string) Result {
 		}
 		res = append(res, r)
 	}
-	out := strings.Join(res, ";") + " | " + c24Dump(ctx, 0, raw[0]) + " " + c24Dump(ctx, 1, raw[1]) + " " + c24Dump(ctx, 2, raw[2])
+	out := strings.Join(res, ";") + " | " + world.dump(ctx, 0, raw[0]) + " " + world.dump(ctx, 1, raw[1]) + " " + world.dump(ctx, 2, raw[2])
 	// known-finding regions from the input alone
 	cnt := map[int]int{}
 	for _, id := range route {
@@ -374,10 +655,15 @@ func (c24) Run(in string, scratch string) Result {
 	if dupCfg && strings.Contains(";"+f[1]+";", ";lb;") {
 		tags["kf:C24-listbuckets-duplicates"] = true
 	}
+	hasEmpty := strings.Contains(f[1], ",E,") || strings.HasSuffix(f[1], ",E") || strings.Contains(f[1], ",E;")
 	for _, opS := range strings.Split(f[1], ";") {
 		a := strings.Split(opS, ",")
 		if a[0] == "cp" && !sameInstance(a[1], a[3]) {
 			tags["kf:C24-cross-copy-drops-metadata"] = true
+		}
+		// ranged UploadPartCopy across storages while some object of the history is empty
+		if a[0] == "upc" && !sameInstance(a[1], a[3]) && a[6] != "-" && hasEmpty {
+			tags["kf:C24-cross-partcopy-empty-source"] = true
 		}
 	}
 	if len(route) == 0 {
@@ -395,38 +681,109 @@ func (c24) Run(in string, scratch string) Result {
 
 var c24BucketPool = []string{"aaa", "bbb", "ccc", "ddd", "eee"}
 var c24Cfgs = []string{"aaa:1,bbb:1,ccc:2", "aaa:1,ccc:2", "aaa:1,bbb:2", "aaa:1", "-", "aaa:2,bbb:2,ccc:2", "aaa:0,bbb:1", "aaa:1,bbb:2,ccc:1"}
+var c24Data = []string{"x", "abcdefgh", "0123456789abcdef", "E", "abcdefgh"}
+var c24Ranges = []string{"-", "-", "-", "0:4", "2:6", "3:", "0:", ":3", ":100", "0:100", "0:1", "1:", ":1", "0:8", "4:4", "5:2", "8:", "16:20", ":0", "7:8"}
+var c24Conds = []string{"imE", "imE", "imW", "imX", "nmE", "nmW", "nmX", "nmX", "nmX", "us-1", "us0", "us0", "us0", "us1", "ms-1", "ms-1", "ms-1", "ms0", "ms1"}
 
 func (c24) Gen(r *Rng, tier string, n int) []string {
 	var cases []string
-	keys := []string{"k1", "k2", "k3"}
+	keys := []string{"k1", "k2"}
 	for len(cases) < n {
 		cfg := r.Pick(c24Cfgs)
 		var ops []string
-		// most histories start by creating some buckets
+		// a light simulation so that most copies name an existing source and a plausible version
+		exists := map[string]bool{}
+		nver := map[string]int{} // bucket/key -> versions created (versioned buckets) or 1
+		var have []string        // bucket/key pairs that were written
 		for _, b := range c24BucketPool {
-			if r.Chance(70) {
-				ops = append(ops, "cb,"+b)
+			if r.Chance(80) {
+				if r.Chance(55) {
+					ops = append(ops, "cbv,"+b)
+				} else {
+					ops = append(ops, "cb,"+b)
+				}
+				exists[b] = true
 			}
 		}
-		nops := 4 + r.Intn(10)
+		wrote := func(b, k string) {
+			if exists[b] {
+				if nver[b+"/"+k] == 0 {
+					have = append(have, b+"/"+k)
+				}
+				nver[b+"/"+k]++
+			}
+		}
+		src := func() (string, string) {
+			if len(have) > 0 && r.Chance(85) {
+				p := strings.SplitN(r.Pick(have), "/", 2)
+				return p[0], p[1]
+			}
+			return r.Pick(c24BucketPool), r.Pick(keys)
+		}
+		opts := func(b, k string) string {
+			vid := "-"
+			if r.Chance(50) {
+				nv := nver[b+"/"+k]
+				vid = strconv.Itoa(1 + r.Intn(nv+1))
+				if r.Chance(8) {
+					vid = "0"
+				}
+			}
+			cond := "-"
+			if r.Chance(65) {
+				var cs []string
+				seen := map[string]bool{}
+				for i := 0; i <= r.Intn(3); i++ {
+					c := r.Pick(c24Conds)
+					if !seen[c[:2]] {
+						seen[c[:2]] = true
+						cs = append(cs, c)
+					}
+				}
+				cond = strings.Join(cs, "+")
+			}
+			return vid + "," + r.Pick(c24Ranges) + "," + cond
+		}
+		nops := 8 + r.Intn(12)
 		for i := 0; i < nops; i++ {
 			b := r.Pick(c24BucketPool)
 			k := r.Pick(keys)
-			switch x := r.Intn(20); {
+			switch x := r.Intn(26); {
 			case x < 1:
-				ops = append(ops, "cb,"+b)
+				ops = append(ops, r.Pick([]string{"cb,", "cbv,"})+b)
+				exists[b] = true
 			case x < 2:
 				ops = append(ops, "db,"+b)
 			case x < 7:
-				ops = append(ops, fmt.Sprintf("put,%s,%s,d%d,%d", b, k, r.Intn(4), r.Intn(2)))
+				ops = append(ops, fmt.Sprintf("put,%s,%s,%s,%d", b, k, r.Pick(c24Data), r.Intn(2)))
+				wrote(b, k)
 			case x < 9:
-				ops = append(ops, fmt.Sprintf("mput,%s,%s,d%d", b, k, r.Intn(4)))
-			case x < 10:
-				ops = append(ops, "del,"+b+","+k)
-			case x < 15:
-				ops = append(ops, fmt.Sprintf("cp,%s,%s,%s,%s", b, k, r.Pick(c24BucketPool), r.Pick(keys)))
-			case x < 17:
-				ops = append(ops, "head,"+b+","+k)
+				ops = append(ops, fmt.Sprintf("mput,%s,%s,%s", b, k, r.Pick(c24Data)))
+				wrote(b, k)
+			case x < 11:
+				sb, sk := src()
+				ops = append(ops, "del,"+sb+","+sk)
+				wrote(sb, sk)
+			case x < 12:
+				sb, sk := src()
+				ops = append(ops, fmt.Sprintf("cp,%s,%s,%s,%s", sb, sk, r.Pick(c24BucketPool), r.Pick(keys)))
+			case x < 18:
+				sb, sk := src()
+				db, dk := r.Pick(c24BucketPool), r.Pick(keys)
+				ops = append(ops, fmt.Sprintf("cp,%s,%s,%s,%s,%s", sb, sk, db, dk, opts(sb, sk)))
+				wrote(db, dk)
+			case x < 22:
+				sb, sk := src()
+				db, dk := r.Pick(c24BucketPool), r.Pick(keys)
+				ops = append(ops, fmt.Sprintf("upc,%s,%s,%s,%s,%s", sb, sk, db, dk, opts(sb, sk)))
+				wrote(db, dk)
+			case x < 24:
+				sb, sk := src()
+				h := "head," + sb + "," + sk
+				if r.Chance(50) {
+					h += "," + strconv.Itoa(1+r.Intn(nver[sb+"/"+sk]+1))
+				}
+				ops = append(ops, h)
 			default:
 				ops = append(ops, "lb")
 			}
